@@ -283,4 +283,260 @@ theorem tableFacts {tbl : EscTable} (h : tableOK tbl = true) : ∃ rest, TableFa
     · simp only [List.mem_singleton] at hc; subst hc; decide
     · exact h4 q hq c hc
 
+/-! ### all stages -/
+
+/-- the invariant of an item while the entries `rem` are still to be applied -/
+def Item.good (tbl rem : EscTable) : Item → Prop
+  | .lit c => c ≠ '~'
+  | .ent q y => (q, ['~', y]) ∈ tbl ∧ ∀ r ∈ rem, y ∉ r.1
+
+theorem fold_items (tbl : EscTable) : ∀ (rem : EscTable), (∀ r ∈ rem, r ∈ tbl) → RemOK rem →
+    ∀ items : List Item, (∀ it ∈ items, it.good tbl rem) →
+      ∃ items', flatI items' = rem.foldl (fun t pe => replaceAll pe.1 pe.2 t) (flatI items) ∧
+        valI items' = valI items ∧ ∀ it ∈ items', it.good tbl [] := by
+  intro rem
+  induction rem with
+  | nil =>
+    intro _ _ items hg
+    exact ⟨items, rfl, rfl, hg⟩
+  | cons pe rem ih =>
+    intro hsub hrem items hg
+    obtain ⟨p, e⟩ := pe
+    obtain ⟨hp, hpt, ⟨x, rfl, hx⟩, hrem'⟩ := hrem
+    have he : ∀ q y, Item.ent q y ∈ items → y ∉ p :=
+      fun q y h => (hg _ h).2 (p, ['~', x]) List.mem_cons_self
+    obtain ⟨items1, h1, h2, h3⟩ := stage_items p x hp hpt items.length items (Nat.le_refl _) he
+    have hg1 : ∀ it ∈ items1, it.good tbl rem := by
+      intro it hit
+      rcases h3 it hit with h | rfl
+      · have := hg it h
+        cases it with
+        | lit c => exact this
+        | ent q y => exact ⟨this.1, fun r hr => this.2 r (List.mem_cons_of_mem _ hr)⟩
+      · exact ⟨hsub _ List.mem_cons_self, hx⟩
+    obtain ⟨items2, k1, k2, k3⟩ :=
+      ih (fun r hr => hsub r (List.mem_cons_of_mem _ hr)) hrem' items1 hg1
+    exact ⟨items2, by rw [k1, h1]; rfl, by rw [k2, h2], k3⟩
+
+/-- the escaped text is an item list denoting the original string -/
+theorem applyTable_items {tbl rest : EscTable} (hf : TableFacts tbl rest) (s : List Char) :
+    ∃ items, flatI items = applyTable tbl s ∧ valI items = s ∧ ∀ it ∈ items, it.good tbl [] := by
+  obtain ⟨items0, h1, h2, h3⟩ := stage0_items s
+  have hsub : ∀ r ∈ rest, r ∈ tbl := by
+    intro r hr; rw [hf.eq]; exact List.mem_cons_of_mem _ hr
+  have hg0 : ∀ it ∈ items0, it.good tbl rest := by
+    intro it hit
+    rcases h3 it hit with ⟨c, rfl, hc⟩ | rfl
+    · exact hc
+    · exact ⟨by rw [hf.eq]; exact List.mem_cons_self, hf.noTilde⟩
+  obtain ⟨items, k1, k2, k3⟩ := fold_items tbl rest hsub hf.rem items0 hg0
+  refine ⟨items, ?_, by rw [k2, h2], k3⟩
+  rw [k1, h1, applyTable, hf.eq]
+  rfl
+
+/-! ### `quote` and the trailing replacements -/
+
+theorem encodeToken_eq_quote (tbl : EscTable) (s : List Char) :
+    encodeToken tbl s = quote (applyTable tbl s) := by
+  unfold encodeToken
+  have hok : ∀ a ∈ (applyTable tbl s).flatMap atomsOf, a.ok := by
+    intro a ha
+    obtain ⟨c, _, hc⟩ := List.mem_flatMap.mp ha
+    exact atomsOf_ok c a hc
+  rw [quote_eq, replaceAll_pct7_noop 'E' (Or.inl rfl) _ hok,
+    replaceAll_pct7_noop 'e' (Or.inr rfl) _ hok]
+
+theorem quote_flatI (items : List Item)
+    (hq : ∀ q y, Item.ent q y ∈ items → quoteSafe y = true) :
+    quote (flatI items) = encI items := by
+  induction items with
+  | nil => rfl
+  | cons it items ih =>
+    rw [flatI_cons, quote_append, encI_cons,
+      ih (fun q y h => hq q y (List.mem_cons_of_mem _ h))]
+    congr 1
+    cases it with
+    | lit c => simp [Item.flat, Item.enc, quote]
+    | ent q y =>
+      have hy := hq q y List.mem_cons_self
+      simp [Item.flat, Item.enc, quote, quoteChar, hy, quoteSafe_tilde]
+
+/-! ### decoding -/
+
+theorem splitAtTilde_none (t : List Char) (h : '~' ∉ t) : splitAtTilde t = none := by
+  induction t with
+  | nil => rfl
+  | cons c t ih =>
+    have hc : c ≠ '~' := fun e => h (e ▸ List.mem_cons_self)
+    simp [splitAtTilde, hc, ih (fun hm => h (List.mem_cons_of_mem _ hm))]
+
+theorem splitAtTilde_append (hd r : List Char) (h : '~' ∉ hd) :
+    splitAtTilde (hd ++ '~' :: r) = some (hd, '~' :: r) := by
+  induction hd with
+  | nil => simp [splitAtTilde]
+  | cons c hd ih =>
+    have hc : c ≠ '~' := fun e => h (e ▸ List.mem_cons_self)
+    simp [splitAtTilde, hc, ih (fun hm => h (List.mem_cons_of_mem _ hm))]
+
+theorem splitAtTilde_some {t hd r : List Char} (h : splitAtTilde t = some (hd, r)) :
+    r ≠ [] ∧ r.length ≤ t.length := by
+  induction t generalizing hd r with
+  | nil => simp [splitAtTilde] at h
+  | cons c t ih =>
+    simp only [splitAtTilde] at h
+    split at h
+    · simp only [Option.some.injEq, Prod.mk.injEq] at h
+      obtain ⟨_, rfl⟩ := h
+      simp
+    · cases hs : splitAtTilde t with
+      | none => simp [hs] at h
+      | some hr =>
+        obtain ⟨hd', r'⟩ := hr
+        simp only [hs, Option.map_some, Option.some.injEq, Prod.mk.injEq] at h
+        obtain ⟨_, rfl⟩ := h
+        have := ih hs
+        exact ⟨this.1, by simp only [List.length_cons]; omega⟩
+
+theorem decodeTokenF_fuel (tbl : EscTable) (dec : List UInt8 → List Char) :
+    ∀ (n m : Nat) (t : List Char), t.length < n → t.length < m →
+      decodeTokenF tbl dec n t = decodeTokenF tbl dec m t := by
+  intro n
+  induction n with
+  | zero => intro m t h; omega
+  | succ n ih =>
+    intro m t hn hm
+    cases m with
+    | zero => omega
+    | succ m =>
+      simp only [decodeTokenF]
+      split
+      · rfl
+      · split
+        · rfl
+        next hd r hs =>
+          have ⟨hne, hlen⟩ := splitAtTilde_some hs
+          have : (r.drop 2).length < r.length := by
+            cases r with
+            | nil => exact absurd rfl hne
+            | cons a r => simp only [List.length_drop, List.length_cons]; omega
+          congr 1
+          apply ih <;> omega
+
+theorem decodeToken_noTilde (tbl : EscTable) (dec : List UInt8 → List Char) (t : List Char)
+    (h : '~' ∉ t) : decodeToken tbl dec t = unquote dec t := by
+  unfold decodeToken
+  simp only [decodeTokenF, splitAtTilde_none t h]
+  split
+  next he =>
+    have : t = [] := by simpa using he
+    subst this; rfl
+  · rfl
+
+theorem decodeToken_tilde (tbl : EscTable) (dec : List UInt8 → List Char) (hd : List Char)
+    (y : Char) (r : List Char) (h : '~' ∉ hd) :
+    decodeToken tbl dec (hd ++ '~' :: y :: r) =
+      unquote dec (hd ++ (decLookup tbl ['~', y]).getD ['~', y]) ++ decodeToken tbl dec r := by
+  unfold decodeToken
+  rw [decodeTokenF]
+  have : (hd ++ '~' :: y :: r).isEmpty = false := by cases hd <;> rfl
+  simp only [splitAtTilde_append hd (y :: r) h, this, Bool.false_eq_true, ↓reduceIte, List.take_succ_cons, List.take_zero,
+    List.drop_succ_cons, List.drop_zero]
+  congr 1
+  apply decodeTokenF_fuel
+  · simp only [List.length_append, List.length_cons]; omega
+  · omega
+
+theorem mem_quoteChar {c x : Char} (h : c ∈ quoteChar x) :
+    (c = x ∧ quoteSafe x = true) ∨ c = '%' ∨ ∃ n, n < 16 ∧ c = hexDigitUpper n := by
+  unfold quoteChar at h
+  split at h
+  next hs => simp only [List.mem_singleton] at h; exact Or.inl ⟨h, hs⟩
+  next =>
+    obtain ⟨b, _, hb⟩ := List.mem_flatMap.mp h
+    simp only [pctByte, List.mem_cons, List.not_mem_nil, or_false] at hb
+    rcases hb with rfl | rfl | rfl
+    · exact Or.inr (Or.inl rfl)
+    · exact Or.inr (Or.inr ⟨_, byte_hi_lt b, rfl⟩)
+    · exact Or.inr (Or.inr ⟨_, byte_lo_lt b, rfl⟩)
+
+theorem mem_quote {c : Char} {s : List Char} (h : c ∈ quote s) :
+    (c ∈ s ∧ quoteSafe c = true) ∨ c = '%' ∨ ∃ n, n < 16 ∧ c = hexDigitUpper n := by
+  obtain ⟨x, hx, hc⟩ := List.mem_flatMap.mp h
+  rcases mem_quoteChar hc with ⟨rfl, hs⟩ | h | h
+  · exact Or.inl ⟨hx, hs⟩
+  · exact Or.inr (Or.inl h)
+  · exact Or.inr (Or.inr h)
+
+theorem hexDigitUpper_ne_tilde {n : Nat} (h : n < 16) : hexDigitUpper n ≠ '~' :=
+  (by decide : ∀ n : Fin 16, hexDigitUpper n.val ≠ '~') ⟨n, h⟩
+
+theorem tilde_not_mem_quote (s : List Char) (h : '~' ∉ s) : '~' ∉ quote s := by
+  intro hm
+  rcases mem_quote hm with ⟨h1, _⟩ | h1 | ⟨n, hn, h1⟩
+  · exact h h1
+  · revert h1; decide
+  · exact hexDigitUpper_ne_tilde hn h1.symm
+
+theorem quote_eq_nil {s : List Char} (h : quote s = []) : s = [] := by
+  cases s with
+  | nil => rfl
+  | cons c s =>
+    rw [quote_cons] at h
+    exact absurd (List.append_eq_nil_iff.mp h).1 (quoteChar_ne_nil c)
+
+/-- decoding the quoted item list gives back what the items denote -/
+theorem decodeToken_encI {tbl rest : EscTable} (hf : TableFacts tbl rest)
+    {dec : List UInt8 → List Char} (hd : DecOK dec) :
+    ∀ (items : List Item), (∀ it ∈ items, it.good tbl []) →
+      ∀ pre : List Char, '~' ∉ pre →
+        decodeToken tbl dec (quote pre ++ encI items) = pre ++ valI items := by
+  intro items
+  induction items with
+  | nil =>
+    intro _ pre hpre
+    simp only [encI, valI, List.flatMap_nil, List.append_nil]
+    rw [decodeToken_noTilde _ _ _ (tilde_not_mem_quote pre hpre)]
+    have := unquote_quote_append hd pre [] (by simp)
+    simpa using this
+  | cons it items ih =>
+    intro hg pre hpre
+    have hg' : ∀ it ∈ items, it.good tbl [] := fun it h => hg it (List.mem_cons_of_mem _ h)
+    cases it with
+    | lit c =>
+      have hc : c ≠ '~' := hg (Item.lit c) List.mem_cons_self
+      have := ih hg' (pre ++ [c]) (by
+        intro hm
+        rcases List.mem_append.mp hm with h | h
+        · exact hpre h
+        · simp only [List.mem_singleton] at h; exact hc h.symm)
+      rw [encI_cons, valI_cons]
+      simp only [Item.enc, Item.val]
+      rw [quote_append, List.append_assoc, List.append_assoc] at this
+      simpa [quote] using this
+    | ent q y =>
+      have hmem : (q, ['~', y]) ∈ tbl := (hg (Item.ent q y) List.mem_cons_self).1
+      rw [encI_cons, valI_cons]
+      simp only [Item.enc, Item.val, List.cons_append, List.nil_append]
+      rw [decodeToken_tilde _ _ _ _ _ (tilde_not_mem_quote pre hpre)]
+      have hl := hf.lookup _ hmem
+      simp only at hl
+      rw [hl, Option.getD_some, unquote_quote_append hd pre q (hf.plain _ hmem)]
+      have := ih hg' [] (by simp)
+      simp only [quote_nil, List.nil_append] at this
+      rw [this, List.append_assoc]
+
+theorem decodeToken_encodeToken (tbl : EscTable) (dec : List UInt8 → List Char)
+    (h : tableOK tbl = true) (hd : DecOK dec) (s : List Char) :
+    decodeToken tbl dec (encodeToken tbl s) = s := by
+  obtain ⟨rest, hf⟩ := tableFacts h
+  obtain ⟨items, h1, h2, h3⟩ := applyTable_items hf s
+  have hq : ∀ q y, Item.ent q y ∈ items → quoteSafe y = true := by
+    intro q y hm
+    obtain ⟨c, hc, hs⟩ := hf.codes _ (h3 _ hm).1
+    simp only [List.cons.injEq, and_true, true_and] at hc
+    exact hc ▸ hs
+  rw [encodeToken_eq_quote, ← h1, quote_flatI items hq]
+  have := decodeToken_encI hf hd items h3 [] (by simp)
+  simpa [quote_nil, h2] using this
+
 end Liquer
